@@ -3,11 +3,13 @@
 Real code: porepy.numerics.ad.ad_utils.{set,get,shift}_solution_values and the EquationSystem wrappers
 set_variable_values / get_variable_values / shift_time_step_values / shift_iterate_values.
 """
+import ast
+import os
 from fractions import Fraction
 
 import numpy as np
 
-from harness.common import deep_compare, err_kind, frac
+from harness.common import REPO, deep_compare, err_kind, frac
 
 PID = "C08"
 THEOREMS = [
@@ -33,11 +35,25 @@ THEOREMS = [
     "PorepyVerif.C08.data_set_is_store_step",
     "PorepyVerif.C08.data_get_is_store_step",
     "PorepyVerif.C08.data_shift_is_store_step",
+    "PorepyVerif.C08.es_set_get_roundtrip",
+    "PorepyVerif.C08.es_set_blocks",
+    "PorepyVerif.C08.es_set_wrong_size",
+    "PorepyVerif.C08.es_shift_simultaneous",
+    "PorepyVerif.C08.es_shift_windows",
+    "PorepyVerif.C08.es_set_get_roundtrip_c05",
+    "PorepyVerif.C08.sep_step",
+    "PorepyVerif.C08.sep_reachable",
+    "PorepyVerif.C08.heap_step_refines",
+    "PorepyVerif.C08.heap_run_refines",
+    "PorepyVerif.C08.held_stable_step",
+    "PorepyVerif.C08.held_stable",
+    "PorepyVerif.C08.get_returns_stable_copy",
 ]
 LEAN_MODULES = ["PorepyVerif.C08.Props"]
+LEAN_DIRS = ["C05"]  # Model.lean imports PorepyVerif.C05.Model (layout of the equation system)
 AUDIT = "PorepyVerif/C08/Audit.lean"
 DRIVER = "PorepyVerif/C08/Driver.lean"
-N = {"quick": 600, "thorough": 40000}
+N = {"quick": 600, "thorough": 20000}
 TS, IT = "time_step_solutions", "iterate_solutions"
 RULE = ("histories of 3-40 calls; two layers: 'utils' = ad_utils.set/get/shift_solution_values on a plain data dict with 1-2 names "
         "(arrays of length 2-4), 'es' = EquationSystem.set/get_variable_values, shift_time_step_values, shift_iterate_values on a "
@@ -51,19 +67,28 @@ RULE = ("histories of 3-40 calls; two layers: 'utils' = ad_utils.set/get/shift_s
 TRUSTED = [
     "modelled, not verified: numpy ndarray.copy / in-place += / slicing / concatenate; Python dict semantics of data[loc][name] "
     "(model: association list with replace-or-append insertion, len = number of keys)",
-    "aliasing ('reads return copies that later writes do not alter') is a run-time notion an immutable model cannot exhibit: it is "
-    "TESTED, not proved - the oracle overwrites or keeps every array it passed in or got back, pokes every stored slot additively at the "
-    "end and re-reads the whole store",
-    "the dissection of the global vector by the EquationSystem wrappers (global variable order, C05) is re-done by the harness "
-    "(creation order on one grid) and sent to the model as a sequence of helper calls that stops at the first error",
+    "aliasing: proved on a model WITH sharing (heap of arrays, slots hold references, caller holds references and may overwrite them; "
+    "theorems sep_reachable, heap_run_refines, held_stable, get_returns_stable_copy) whose copy decisions (codePolicy: set copies, get "
+    "copies, every pass of the shift loop copies, += is in place) are read off the source of ad_utils.py by an ast check on every run "
+    "(translate()); that numpy's .copy() yields disjoint memory and that nothing else in the three helpers shares arrays is TESTED by the "
+    "oracle: it overwrites or keeps every array it passed in or got back, checks np.shares_memory between all stored slots and all arrays "
+    "it ever held, pokes every stored slot additively at the end and re-reads the whole store",
+    "EquationSystem wrappers: modelled (esSet / esGet / esShift over the list of blocks of _variable_numbers in global order); the "
+    "harness supplies that list (creation order on one grid; C05 proves the layout in general, layoutOf ties the two models) and resolves "
+    "_parse_variable_type (None / str / Variable / md-variable -> names)",
 ]
 EXPLANATION = (
     "FULL for the storage logic: the model is the dict index->array with set/add/get/shift exactly as branched in shift_solution_values "
     "(num_stored vs max_index, KeyError with partial writes on stores with holes) plus the data-dictionary layer (absent name vs empty "
-    "dict, _validate_indices). Theorems: refinement of every hole-free history to a plain list window (shift m: take m (w0::w) ++ drop m w), "
+    "dict, _validate_indices) plus the EquationSystem wrappers (dissection of the global vector, final size assertion, shift of every parsed "
+    "variable). Theorems: refinement of every hole-free history to a plain list window (shift m: take m (w0::w) ++ drop m w), "
     "window_ith for the (shift m; set 0 v)* pattern incl. varying depths, the additive Newton pattern, rejection of additive writes to empty "
-    "slots, exact characterisation of KeyError on stores with holes, frame/focus lemmas for the data dictionary. Correspondence compares every "
-    "output, error kind and the final store contents exactly. The copy/aliasing clause of the property is tested by the oracle only.")
+    "slots, exact characterisation of KeyError on stores with holes, frame/focus lemmas for the data dictionary, set-then-get round trip of "
+    "the wrappers block by block, wrapper shift = store-level shift on every variable. Aliasing: a heap model with references in which the "
+    "separation invariant (no two slots share an array, no slot shares one with the caller) is proved for all histories, the value-level model "
+    "is proved to be its faithful abstraction, and the seeded no-copy variants are refuted by concrete histories. Correspondence compares every "
+    "output, error kind and the final store contents exactly; the oracle checks the sliding-window statement and the separation invariant "
+    "(np.shares_memory) directly on the real code.")
 ASSUMPTIONS = [
     "values are exact in binary64 (dyadic generator, <= 40 additions) so that the rational model and the float implementation agree exactly",
     "arrays written to one name always have the same length (numpy broadcasting of += on mismatching shapes is not modelled)",
@@ -114,6 +139,18 @@ def _sel_seq(sel, names):
     if sel is None:
         return list(names)
     return [s[1] for s in sel]
+
+
+def _finish(rng, case, names, sizes):
+    """3% of the equation-system cases end with a vector of the wrong size (final assertion of set_variable_values, after the writes)"""
+    if case["mode"] == "es" and rng.random() < 0.03:
+        sel = _gen_selector(rng, names)
+        tot = sum(sizes[n] for n in _sel_names(sel, names))
+        wrong = max(0, tot + rng.choice([-2, -1, 1, 2]))
+        if wrong != tot:
+            case["ops"].append({"op": "es_set", "vars": sel, "values": _vec(rng, wrong), "ts": 0, "it": None, "additive": False,
+                                "keep": False, "wrong_size": True})
+    return case
 
 
 def gen_case(rng, tier):
@@ -168,7 +205,7 @@ def gen_case(rng, tier):
                     ops.append({"op": "es_get", "vars": _gen_selector(rng, names), "ts": idx2[0], "it": idx2[1], "keep": keep()})
                 else:
                     ops.append({"op": "get", "name": rng.choice(names), "ts": idx2[0], "it": idx2[1], "keep": keep()})
-        return dict(case, ops=ops[:40])
+        return _finish(rng, dict(case, ops=ops[:40]), names, sizes)
 
     nops = rng.randint(3, nmax)
     for k in range(nops):
@@ -221,7 +258,7 @@ def gen_case(rng, tier):
                 ops.append({"op": "es_get", "vars": _gen_selector(rng, names), "ts": ts, "it": it, "keep": keep()})
             else:
                 ops.append({"op": "get", "name": name, "ts": ts, "it": it, "keep": keep()})
-    return dict(case, ops=ops)
+    return _finish(rng, dict(case, ops=ops), names, sizes)
 
 
 # ----------------------------------------------------------------------------- dissection of equation-system calls
@@ -256,6 +293,7 @@ class _Impl:
         self.pp = pp
         self.case = case
         self.kept = []  # (array, snapshot, description)
+        self.handled = []  # every array passed to / returned by porepy
         if case["mode"] == "utils":
             self.data = {}
             self.es = None
@@ -281,6 +319,7 @@ class _Impl:
         return out
 
     def _after(self, arr, op, k, what):
+        self.handled.append((arr, f"{what} of op {k} ({op['op']})"))
         if op.get("keep"):
             self.kept.append((arr, arr.copy(), f"{what} of op {k} ({op['op']})"))
         else:
@@ -349,16 +388,19 @@ def impl_run(case):
 
 # ----------------------------------------------------------------------------- model side
 def _wire(op):
-    return {k: v for k, v in op.items() if k != "keep"}
+    return {k: v for k, v in op.items() if k not in ("keep", "wrong_size")}
 
 
 def model_ops(case):
     ops = []
+    names = _names(case)
     if case["mode"] == "es":
-        ops += [{"op": "touch", "name": v[0]} for v in case["vars"]]
+        ops.append({"op": "layout", "blocks": [[n, case["sizes"][n]] for n in names]})
     for op in case["ops"]:
         if op["op"].startswith("es_"):
-            ops.append({"op": "seq", "ops": _dissect(case, op)})
+            w = _wire(op)
+            w["sel"] = _sel_seq(w.pop("vars"), names)  # _parse_variable_type: names in argument order, duplicates kept
+            ops.append(w)
         else:
             ops.append(_wire(op))
     ops.append({"op": "dump"})
@@ -366,21 +408,8 @@ def model_ops(case):
 
 
 def model_decode(outs, case):
-    skip = len(case["vars"]) if case["mode"] == "es" else 0
-    outs = outs[skip:]
-    res = []
-    for op, o in zip(case["ops"], outs[:-1]):
-        if op["op"].startswith("es_"):
-            subs = o["outs"]
-            errs = [s for s in subs if isinstance(s, dict) and "err" in s]
-            if errs:
-                res.append(errs[0])
-            elif op["op"] == "es_get":
-                res.append({"val": [x for s in subs for x in s["val"]]})
-            else:
-                res.append("ok")
-        else:
-            res.append(o)
+    outs = outs[1:] if case["mode"] == "es" else outs
+    res = list(outs[:-1])
     res.append(sorted([d["loc"], d["name"], sorted(d["entries"], key=lambda e: e[0])] for d in outs[-1]))
     return res
 
@@ -528,6 +557,12 @@ def oracle(case):
     for k, op in enumerate(case["ops"]):
         outcome = im.call(k, op)
         is_err = isinstance(outcome, dict)
+        if op.get("wrong_size"):
+            # outside the property (arrays of the wrong length get stored before the assertion fails): compared with the model only
+            for n in _sel_names(op["vars"], _names(case)):
+                for loc in (TS, IT):
+                    ref.st(loc, n).lose()
+            continue
         subs = _dissect(case, op) if op["op"].startswith("es_") else [op]
         kind = op["op"].replace("es_", "")
         exp_err, uncertain, segs = None, False, []
@@ -602,7 +637,25 @@ def oracle(case):
                 return _fail(f"{tag}: the {what} was altered by later calls ({snap.tolist()} -> {arr.tolist()})", "alias-kept-array-altered")
         return None
 
-    r = kept_ok("end of history") or reread("end of history", "final-reread-mismatch")
+    def separated():
+        """the separation invariant of the heap model on the real objects: no two slots share memory, no slot shares memory
+        with an array the caller passed in or got back"""
+        slots = []
+        for loc in (TS, IT):
+            for name, dct in im.data.get(loc, {}).items():
+                for i, a in dct.items():
+                    if isinstance(a, np.ndarray):
+                        slots.append((f"{loc}[{name}][{i}]", a))
+        for x in range(len(slots)):
+            for y in range(x + 1, len(slots)):
+                if np.shares_memory(slots[x][1], slots[y][1]):
+                    return _fail(f"slots {slots[x][0]} and {slots[y][0]} share memory", "sep-slots-share-memory")
+            for arr, what in im.handled:
+                if np.shares_memory(slots[x][1], arr):
+                    return _fail(f"slot {slots[x][0]} shares memory with the {what}", "sep-slot-shares-memory-with-caller")
+        return None
+
+    r = kept_ok("end of history") or reread("end of history", "final-reread-mismatch") or separated()
     if r:
         return r
     # poke every specified slot additively: no other slot and no array held by the caller may change
@@ -619,6 +672,50 @@ def oracle(case):
     for arr, _, _ in im.kept:
         arr[...] = SENT
     return reread("after overwriting all arrays passed in / returned earlier", "alias-store-altered")
+
+
+# ----------------------------------------------------------------------------- tie of the heap model's copy decisions to the source
+CODE_POLICY = {"copySet": True, "copyGet": True, "copyShift": True, "additiveInPlace": True}  # = codePolicy in Model.lean
+
+
+def _is_copy(e):
+    return isinstance(e, ast.Call) and isinstance(e.func, ast.Attribute) and e.func.attr == "copy" and not e.args and not e.keywords
+
+
+def _depth3(t):
+    return isinstance(t, ast.Subscript) and isinstance(t.value, ast.Subscript) and isinstance(t.value.value, ast.Subscript)
+
+
+def read_policy(path):
+    """copy decisions of set/get/shift_solution_values, read off the source"""
+    fns = {n.name: n for n in ast.parse(open(path).read()).body if isinstance(n, ast.FunctionDef)}
+    f_set, f_get, f_shift = (fns[k] for k in ("set_solution_values", "get_solution_values", "shift_solution_values"))
+    set_writes = [n for n in ast.walk(f_set) if isinstance(n, ast.Assign) and any(_depth3(t) for t in n.targets)]
+    set_aug = [n for n in ast.walk(f_set) if isinstance(n, ast.AugAssign) and _depth3(n.target)]
+    shift_writes = [n for n in ast.walk(f_shift) if isinstance(n, ast.Assign) and any(_depth3(t) for t in n.targets)]
+    rets = [n for n in ast.walk(f_get) if isinstance(n, ast.Return) and n.value is not None]
+    if not set_writes or not shift_writes or not rets or len(set_aug) != 1:
+        raise RuntimeError("cannot locate the storage writes / the return of the helpers in ad_utils.py")
+    def ret_is_copy(r):
+        if _is_copy(r.value):
+            return True
+        if isinstance(r.value, ast.Name):
+            asg = [n for n in ast.walk(f_get) if isinstance(n, ast.Assign) and any(isinstance(t, ast.Name) and t.id == r.value.id for t in n.targets)]
+            return bool(asg) and all(_is_copy(n.value) for n in asg)
+        return False
+    return {
+        "copySet": all(_is_copy(n.value) for n in set_writes),
+        "copyGet": all(ret_is_copy(r) for r in rets),
+        "copyShift": all(_is_copy(n.value) for n in shift_writes),
+        "additiveInPlace": isinstance(set_aug[0].op, ast.Add),
+    }
+
+
+def translate():
+    pol = read_policy(os.path.join(REPO, "src", "porepy", "numerics", "ad", "ad_utils.py"))
+    if pol != CODE_POLICY:
+        raise RuntimeError(f"copy decisions in ad_utils.py {pol} differ from codePolicy of the heap model {CODE_POLICY}")
+    return {"obligations": 0, "what": "copy decisions of set/get/shift_solution_values read off the source (ast) = codePolicy", "policy": pol}
 
 
 # ----------------------------------------------------------------------------- evidence helpers
@@ -667,6 +764,8 @@ def stats(cases, impl_outs):
                 c["max_index:" + str(op["max"])] += 1
             if op.get("additive"):
                 c["additive_writes"] += 1
+            if op.get("wrong_size"):
+                c["wrong_size_vectors"] += 1
             if op["op"] in ("set", "es_set") and op["ts"] is not None and op["it"] is not None:
                 c["writes_both_locations"] += 1
         if isinstance(out, list):
